@@ -117,7 +117,7 @@ AppShutdown == /\ UserShutdown /\ spc = "wait" /\ shutCh = <<>> /\ rpc # "shut" 
 
 Next == Reader \/ Shutdown \/ CRecv \/ CErr \/ AppShutdown \/ \E p \in Parsers : Parser(p)
 Spec == Init /\ [][Next]_vars /\ WF_vars(Reader) /\ WF_vars(Shutdown) /\ WF_vars(CRecv) /\ WF_vars(CErr)
-             /\ \A p \in Parsers : WF_vars(PParse(p) \/ PSend(p) \/ PReset(p) \/ PRet(p)) /\ SF_vars(PTake(p))
+             /\ \A p \in Parsers : WF_vars(PParse(p) \/ PSend(p) \/ PReset(p) \/ PRet(p)) /\ SF_vars(PTake(p)) /\ SF_vars(PStop(p))
 
 \* ---------------- properties ----------------
 FrameSet == {Frames[i] : i \in 1..Len(Frames)}
@@ -139,4 +139,7 @@ PoolConservation == LET held == {pbuf[p] : p \in {q \in Parsers : pbuf[q] # 0}}
                        /\ Len(empty) + Len(full) + Cardinality(held) + Cardinality(rd) = PoolSize
 EventuallyAllDelivered == (FailAt = {} /\ ~UserShutdown) => <>(Len(delivered) = Len(Frames))
 FailureEventuallyPublished == [](conn = "failed" => <>(errPuts = 1))
+\* growth beyond the listed properties: does every goroutine of the stream terminate once the connection is closed?
+AllStopped == rpc = "done" /\ spc = "done" /\ \A p \in Parsers : ppc[p] = "stopped"
+ShutdownTerminates == [](conn = "closed" => <>AllStopped)
 =============================================================================
